@@ -129,8 +129,14 @@ def step (s : S) (ws0 : List String) : S × String :=
       let k := BankApi.keyOf perc msb lsb
       let blank : List Ins := List.replicate 128 Ins.empty
       let banks := (BankMap.binsert s.banks k blank).1
-      let banks := BankMap.bupdate banks k (fun b => b.set idx (insOfFields no vo pk fl fb lf ops don doff))
-      finish s (.ok ("0", { s with banks := banks }))
+      let newIns := insOfFields no vo pk fl fb lf ops don doff
+      let oldIns : Option Ins := ((BankMap.bfind banks k).bind fun b => b[idx]?)
+      let banks := BankMap.bupdate banks k (fun b => b.set idx newIns)
+      -- a sounding note refers to its bank entry (pointer in the implementation): it sees the edited instrument
+      let midi := match oldIns with
+        | some o => s.midi.map fun m => { m with notes := m.notes.map fun n => if n.midiins == idx && n.ins == o && !n.isBlank then { n with ins := newIns } else n }
+        | none => s.midi
+      finish s (.ok ("0", { s with banks := banks, midi := midi }))
     | _, _, _, _ => (s, "bad-op")
   | ["on", ch, key, vel] =>
     match nats? [ch, key, vel] with
